@@ -70,3 +70,7 @@ package health
 //@ lemma C30.dead-stays-dead props C30 : tickStep(0) == 0
 //@ lemma C30.frequent-reporter-stays-alive props C30 : forall t time.Duration, d int, n int :: 0 <= d && toInt(d) < t - TickerTime && 0 <= n && toInt(n) <= toInt(d) / TickerTime + 1 ==> max(t - toInt(n)*TickerTime, 0) > 0
 //@ lemma C30.silent-subsystem-dies props C30 : forall t time.Duration, d int, n int :: t > 0 && toInt(d) > t + TickerTime && toInt(n) >= toInt(d) / TickerTime ==> max(t - toInt(n)*TickerTime, 0) == 0
+
+// ---- C35: the health tables are shared by every subsystem that registers/reports and by the ticker goroutine
+//@ guarded_by internal/health.Health.mut: timeouts, timeLeft, readies, alives
+//@ lockdiscipline internal/health.Health mut props C35 held: checkReady wheld: checkAlive skip: Start
